@@ -297,7 +297,13 @@ async def drive_h11(cfg: dict, ops) -> Tuple[List[dict], List[dict], dict]:
                 await proto.handle(Closed())
                 await settle()
                 model_ops.append({"op": "closed"})
-                obs.append(snap())
+                levs = drain_lib_events()      # a parked reader is released by Closed and looks at the parser once more
+                obs.append(None if levs else snap())
+                for e in levs:
+                    model_ops.append({"op": "ev", **e})
+                    obs.append(None)
+                if levs:
+                    obs[-1] = snap()
             elif "terminate" in op:
                 await ctx.terminated.set()
                 model_ops.append({"op": "terminate"})
